@@ -62,6 +62,10 @@ def worker(args):
     return out
 
 
+def ckind_name(backend):
+    return {"atlas": "add_atlas_event_collection_info", "cms_aod": "add_cms_aod_event_collection_info", "cms_miniaod": "add_cms_miniaod_event_collection_info"}[backend]
+
+
 def whole_query_cases(backend):
     a = qgen.ALPHA[backend]
     c = f"e.{a.primary}('A')"
@@ -157,6 +161,28 @@ def whole_query_cases(backend):
     if backend == "atlas":
         cases.append(("plugin-method-surplus-argument", f"ds.Select(lambda e: {c}.Select(lambda j: j.getAttributeFloat('w', j.pt())))"))
         cases.append(("plugin-method-missing-argument", f"ds.Select(lambda e: {c}.Select(lambda j: j.getAttributeFloat()))"))
+    # a value of the wrong KIND for every key of every metadata type (a string where a list of strings is wanted, a number
+    # or None where a string is wanted, the string 'False' where a boolean is wanted, ...)
+    full_md = dict(kinds)
+    full_md["inject_code"] = {"name": "blk", "body_includes": ["a.h"], "ctor_lines": ["int x = 1;"], "link_libraries": ["libX"]}
+    if backend == "atlas":
+        full_md[ckind_name(backend)] = dict(full_md[ckind_name(backend)], link_libraries=["libT"])
+    bad_values = {"str-for-list": "abc", "int": 5, "none": None, "list-of-int": [1, 2], "nested-list": [["a"]], "dict": {"a": 1}, "str-for-bool": "False", "list-for-str": ["a", "b"]}
+    for mt, full in full_md.items():
+        for k, v in full.items():
+            for bn, bv in bad_values.items():
+                if isinstance(v, list) and bn == "list-for-str":
+                    continue
+                if isinstance(v, str) and bn in ("str-for-list", "str-for-bool"):
+                    continue
+                if isinstance(v, bool) and bn == "int":
+                    continue      # 0 / 1 for a flag: tolerated
+                if type(bv) is type(v) and not (isinstance(v, list) and bn in ("list-of-int", "nested-list")):
+                    continue
+                md = {"metadata_type": mt}
+                md.update(full)
+                md[k] = bv
+                cases.append((f"md-bad-value:{mt}.{k}:{bn}", f"MetaData(ds, {md!r}).Select(lambda e: {c}.Count())"))
     cases.append(("md-inject-unknown-field", f"MetaData(ds, {{'metadata_type': 'inject_code', 'name': 'b', 'no_such_field': ['x']}}).Select(lambda e: {c}.Count())"))
     return cases
 
